@@ -100,6 +100,25 @@ Fixpoint dump_from (s : tbl) (i : nat) : list (nat * entry) :=
 Definition dump (t : tbl) : list (nat * entry) := dump_from t 0.
 
 (* ------------------------------------------------------------------ *)
+(* uv_disable_stdio_inheritance (core.c:805-814)                         *)
+(* ------------------------------------------------------------------ *)
+(* for (fd = 0; ; fd++) if (uv__cloexec(fd, 1) && fd > 15) break;
+   every descriptor from 0 is tried; the loop ends at the first number above 15
+   on which fcntl fails (not open).  [fuel] bounds the walk: numbers beyond the
+   end of the table are closed. *)
+Fixpoint disable_from (fuel fd : nat) (t : tbl) : tbl :=
+  match fuel with
+  | O => t
+  | S f =>
+      match set_cloexec t fd true with
+      | Some t1 => disable_from f (S fd) t1
+      | None => if (15 <? fd)%nat then t else disable_from f (S fd) t
+      end
+  end.
+
+Definition disable_stdio_inheritance (t : tbl) : tbl := disable_from (17 + length t) 0 t.
+
+(* ------------------------------------------------------------------ *)
 (* (a) uv__process_child_init                                           *)
 (* ------------------------------------------------------------------ *)
 Local Open Scope Z_scope.
